@@ -86,7 +86,14 @@ func genROM(seed int64) []byte {
 			emit(0x10, 0x00)
 			stopAt = -1
 		}
-		switch rng.Intn(18) {
+		switch rng.Intn(19) {
+		case 18:
+			// sound switched off, some time later on again (everything else keeps running meanwhile)
+			emit(0xaf, 0xe0, 0x26)
+			for k := rng.Intn(40); k > 0; k-- {
+				emit(0x00)
+			}
+			emit(0x3e, 0x80, 0xe0, 0x26, 0x3e, 0x77, 0xe0, 0x24, 0x3e, 0xff, 0xe0, 0x25)
 		case 17:
 			// channel 1 with a random sweep setting, triggered; NR10 and NR52 as the program sees them go to work RAM
 			a := 0xc000 + rng.Intn(0x1e00)
@@ -350,7 +357,17 @@ func runRun(id, rom string, mode string, at int, audio bool) *trace.Scenario {
 				sc.Ev = append(sc.Ev, []any{"req"})
 			}
 		}
-		defer func() { display.VerifOnFrame = nil; display.VerifCloseAfter = 0 }()
+		// "cancelmid": the context is cancelled in the middle of frame `at` (at a machine cycle derived from `at`)
+		total := 0
+		gameboy.VerifCycleObserver = func(g *gameboy.Gameboy, mtick int) {
+			total++
+			if mode == "cancelmid" && !requested && total == (at-1)*17556+1+(at*7919)%17000 {
+				requested = true
+				cancel()
+				sc.Ev = append(sc.Ev, []any{"req"})
+			}
+		}
+		defer func() { display.VerifOnFrame = nil; display.VerifCloseAfter = 0; gameboy.VerifCycleObserver = nil }()
 		gb := gameboy.New(gameboy.Config{RomFilename: rom, DisableVideoOutput: false, DisableAudioOutput: !audio, SerialWriter: &bytes.Buffer{}})
 		done := make(chan struct{})
 		go func() { gb.Run(ctx); close(done) }()
@@ -370,7 +387,7 @@ func runRun(id, rom string, mode string, at int, audio bool) *trace.Scenario {
 		if s := gb.VerifSpeakers(); s != nil {
 			spk = int(s.Cleanups)
 		}
-		sc.Ev = append(sc.Ev, []any{"ret", int(d.Cleanups), spk, 1, trace.B2I(audio)})
+		sc.Ev = append(sc.Ev, []any{"ret", int(d.Cleanups), spk, 1, trace.B2I(audio)}, []any{"cyc", total % 17556})
 	})
 	if perr != "" {
 		sc.Ev = append(sc.Ev, []any{"panic", perr})
@@ -450,7 +467,7 @@ func systemMain(c *Ctx) {
 		// generated ROMs of all four variants (the fourth keeps the LCD off) and two test ROMs
 		roms := []string{all[0], all[6], all[1], all[2], all[6], all[3], all[4], all[6]}
 		for i := 0; i < n; i++ {
-			mode := []string{"cancel", "close", "deadline", "cancel", "close"}[i%5]
+			mode := []string{"cancel", "close", "deadline", "cancelmid", "close", "cancelmid"}[i%6]
 			w.Put(runRun(fmt.Sprintf("system-run-%d", i), roms[i%len(roms)], mode, 1+rng.Intn(12), i%4 < 2))
 		}
 	}
